@@ -426,7 +426,159 @@ example : runU histDyn UServer.empty demoOps =
      .ok [(1024, [(0, "c=5")]), (2048, []), (3072, [])], .none, .ok [(1024, []), (2048, [(0, "c=7")]), (3072, [])],
      .ok [(1024, [(0, "c=5")]), (2048, []), (3072, []), (4096, [(0, "c=9")])]] := by decide
 
+
+/-! ## Wave 2 — the restore as a mechanism fact, the atomic state write -/
+
+theorem restoreC_good (c : Cfg) (h : c.replayIsComplete = true) (d : Dyn σ ρ) : restoreC c d = restore d := by
+  funext p; simp [restoreC, restore, h]
+
+theorem effC_good (c : Cfg) (h : c.replayIsComplete = true) (d : Dyn σ ρ) (s : Server σ) (id : Nat) :
+    effC c d s id = eff d s id := by
+  simp [effC, eff, restoreC_good c h d]
+
+theorem restartC_good (c : Cfg) (h : c.replayIsComplete = true) (d : Dyn σ ρ) (s : Server σ) :
+    restartC c d s = restart d s := by
+  simp [restartC, restart, restoreC_good c h d]
+
+/-- with a complete replay the configured server is the server of wave 1, a crash inside an atomic write being a
+plain crash -/
+theorem stepCC_good (c : Cfg) (h : c.replayIsComplete = true) (d : Dyn σ ρ) (s : Server σ) (op : Op) :
+    stepCC c d s op = stepC d s (atomize c.atomicWrite op) := by
+  cases op with
+  | start id spec => rfl
+  | step id st => simp [stepCC, stepC, atomize, effC_good c h]
+  | crash => simp [stepCC, stepC, atomize, restartC_good c h]
+  | crashInWrite id st =>
+    cases ha : c.atomicWrite with
+    | false => simp [stepCC, stepC, atomize, effC_good c h, restartC_good c h, ha]
+    | true =>
+      simp only [stepCC, stepC, atomize, effC_good c h, restartC_good c h, ha, if_true]
+      cases eff d s id <;> rfl
+
+theorem runCC_good (c : Cfg) (h : c.replayIsComplete = true) (d : Dyn σ ρ) : ∀ (ops : List Op) (s : Server σ),
+    runCC c d s ops = runC d s (ops.map (atomize c.atomicWrite))
+  | [], _ => rfl
+  | op :: ops, s => by simp [runCC, runC, stepCC_good c h, runCC_good c h d ops]
+
+theorem finalCC_good (c : Cfg) (h : c.replayIsComplete = true) (d : Dyn σ ρ) : ∀ (ops : List Op) (s : Server σ),
+    finalCC c d s ops = finalC d s (ops.map (atomize c.atomicWrite))
+  | [], _ => rfl
+  | op :: ops, s => by
+    show finalCC c d (stepCC c d s op).1 ops = finalC d (stepC d s (atomize c.atomicWrite op)).1 (ops.map (atomize c.atomicWrite))
+    rw [stepCC_good c h]; exact finalCC_good c h d ops _
+
+/-- C20 with the mechanism facts.  Clauses 1–3 are those of `C20_full` for the configured server (the
+uninterrupted run does not contain a request that was lost as a whole by a crash inside an atomic write);
+clause 4 is the stronger containment an atomic write gives: a crash inside a write costs NO externalised instance,
+not even the one being written. -/
+def C20_full_cfg (c : Cfg) (d : Dyn σ ρ) : Prop :=
+  ∀ ops : List Op,
+    (∀ n : Nat, (runCC c d Server.empty ops)[n]? = (runU d UServer.empty (ops.map (atomize c.atomicWrite)))[n]? ∨
+          (runCC c d Server.empty ops)[n]? = some Resp.invalid) ∧
+    (∀ id st p, (finalCC c d Server.empty ops).files id = some (.ok p) →
+      (stepCC c d (finalCC c d Server.empty ops) (.step id st)).2
+        = (stepU d (finalU d UServer.empty (ops.map (atomize c.atomicWrite))) (.step id st)).2 ∧
+      (stepCC c d (finalCC c d Server.empty ops) (.step id st)).2 ≠ Resp.invalid) ∧
+    (∀ id st x, x ≠ id →
+      (stepCC c d (finalCC c d Server.empty ops) (.crashInWrite id st)).1.files x = (finalCC c d Server.empty ops).files x ∧
+      ∀ p, (finalCC c d Server.empty ops).files x = some (.ok p) →
+        effC c d (stepCC c d (finalCC c d Server.empty ops) (.crashInWrite id st)).1 x = effC c d (finalCC c d Server.empty ops) x) ∧
+    (c.atomicWrite = true → ∀ id st x p, (finalCC c d Server.empty ops).files x = some (.ok p) →
+      (stepCC c d (finalCC c d Server.empty ops) (.crashInWrite id st)).1.files x = some (.ok p) ∧
+      effC c d (stepCC c d (finalCC c d Server.empty ops) (.crashInWrite id st)).1 x = effC c d (finalCC c d Server.empty ops) x)
+
+theorem C20_full_of_good (c : Cfg) (h : c.good = true) (d : Dyn σ ρ) : C20_full_cfg c d := by
+  have h : c.replayIsComplete = true := h
+  intro ops
+  have hold := C20_full_holds d (ops.map (atomize c.atomicWrite))
+  obtain ⟨_, hi, _⟩ := run_sim d (ops.map (atomize c.atomicWrite)) _ _ (inv_empty d) (rel_empty d)
+  simp only [runCC_good c h, finalCC_good c h, stepCC_good c h, effC_good c h]
+  refine ⟨hold.1, ?_, ?_, ?_⟩
+  · intro id st p hp
+    simpa [atomize] using hold.2.1 id st p hp
+  · intro id st x hx
+    cases ha : c.atomicWrite with
+    | false => simpa [atomize, ha] using hold.2.2 id st x hx
+    | true =>
+      simp only [atomize, if_true, stepC]
+      exact ⟨rfl, fun p hp => eff_restart_of_readable d _ (by simpa [ha] using hi) x p (by simpa [ha] using hp)⟩
+  · intro ha id st x p hp
+    simp only [atomize, ha, if_true, stepC]
+    exact ⟨by simpa [restart, ha] using hp,
+      eff_restart_of_readable d _ (by simpa [ha] using hi) x p (by simpa [ha] using hp)⟩
+
+theorem map_atomize_false : ∀ ops : List Op, ops.map (atomize false) = ops
+  | [] => rfl
+  | op :: ops => by cases op <;> simp [atomize, map_atomize_false ops]
+
+/-- the statement of wave 1 is the instance `replayIsComplete, ¬ atomicWrite` -/
+theorem C20_full_of_cfg (d : Dyn σ ρ) (hc : C20_full_cfg ⟨true, false⟩ d) : C20_full d := by
+  intro ops
+  have := hc ops
+  simp only [runCC_good ⟨true, false⟩ rfl, finalCC_good ⟨true, false⟩ rfl, stepCC_good ⟨true, false⟩ rfl,
+    effC_good ⟨true, false⟩ rfl] at this
+  simp only [map_atomize_false, atomize] at this
+  exact ⟨this.1, this.2.1, this.2.2.1⟩
+
+/-! ### the incomplete replay -/
+
+def lateSpec : Spec := { start := 1024, dt := 1024, stop := 10240, tag := 0 }
+/-- steps WITHOUT settings before the crash, settings AFTER the restart -/
+def lateOps : List Op := [.start 1 lateSpec, .step 1 [], .step 1 [], .crash, .step 1 [(0, "5")]]
+/-- the same history without settings after the restart -/
+def quietOps : List Op := [.start 1 lateSpec, .step 1 [], .step 1 [], .crash, .step 1 []]
+
+/-- A restore that replays only up to the last step that carried settings violates C20: the two logged steps
+are not replayed, the constant given after the restart is applied to them as well. -/
+theorem C20_witness_partial_replay (c : Cfg) (h : c.replayIsComplete = false) : ¬ C20_full_cfg c lazyDyn := by
+  intro hf
+  have h4 := (hf lateOps).1 4
+  obtain ⟨r, a⟩ := c
+  simp only at h
+  subst h
+  cases a <;> exact absurd h4 (by decide)
+
+/-- what the complete replay answers, and what the incomplete one answers -/
+example : (runCC ⟨true, false⟩ lazyDyn Server.empty lateOps)[4]? = some (.ok [(1024, "1"), (2048, "1"), (3072, "5")]) := by decide
+example : (runU lazyDyn UServer.empty lateOps)[4]? = some (.ok [(1024, "1"), (2048, "1"), (3072, "5")]) := by decide
+example : (runCC ⟨false, false⟩ lazyDyn Server.empty lateOps)[4]? = some (.ok [(1024, "5"), (2048, "5"), (3072, "5")]) := by decide
+/-- … and why such a defect passes every history WITHOUT settings after the restart: on-demand computation
+gives the same values then -/
+example : runCC ⟨false, false⟩ lazyDyn Server.empty quietOps = runU lazyDyn UServer.empty quietOps := by decide
+
+/-! ### the atomic write -/
+
+/-- no externalised instance is lost by a crash inside a state write -/
+def NoLossInWrite (c : Cfg) (d : Dyn σ ρ) : Prop :=
+  ∀ (ops : List Op) (id : Nat) (st : Settings) (x : Nat) (p : Persist),
+    (finalCC c d Server.empty ops).files x = some (.ok p) →
+    (stepCC c d (finalCC c d Server.empty ops) (.crashInWrite id st)).1.files x = some (.ok p)
+
+theorem noLoss_of_atomic (c : Cfg) (h : c.good = true) (ha : c.atomicWrite = true) (d : Dyn σ ρ) : NoLossInWrite c d :=
+  fun ops id st x p hp => ((C20_full_of_good c h d ops).2.2.2 ha id st x p hp).1
+
+/-- without the atomic write the instance being written IS lost (the file is torn) -/
+theorem noLoss_witness (c : Cfg) (ha : c.atomicWrite = false) : ¬ NoLossInWrite c histDyn := by
+  intro hf
+  have := hf [.start 1 lateSpec, .step 1 []] 1 [] 1 { spec := lateSpec, step := 2048, log := [(1024, [])] }
+  obtain ⟨r, a⟩ := c
+  simp only at ha
+  subst ha
+  cases r <;> exact absurd (this (by decide)) (by decide)
+
+/-- the torn request is retried after the restart and answered as the uninterrupted session answers it -/
+example : runCC ⟨true, true⟩ histDyn Server.empty [.start 1 lateSpec, .step 1 [(0, "c=5")], .crashInWrite 1 [], .step 1 []]
+    = [.none, .ok [(1024, [(0, "c=5")])], .none, .ok [(1024, [(0, "c=5")]), (2048, [])]] := by decide
+example : runCC ⟨true, false⟩ histDyn Server.empty [.start 1 lateSpec, .step 1 [(0, "c=5")], .crashInWrite 1 [], .step 1 []]
+    = [.none, .ok [(1024, [(0, "c=5")])], .none, .invalid] := by decide
+
 #print axioms C20_full_holds
+#print axioms C20_full_of_good
+#print axioms C20_full_of_cfg
+#print axioms C20_witness_partial_replay
+#print axioms noLoss_of_atomic
+#print axioms noLoss_witness
+#print axioms stepCC_good
 #print axioms C20_continuation
 #print axioms C20_externalised_continues
 #print axioms C20_damage_contained
